@@ -16,7 +16,7 @@ def run(prop, tier):
     for u in units:
         u["known"] = [e for e in known if common.unit_matches(e, u)]
     reps = common.run_units("contracts.membus:unit_laws", units, budget=600)
-    le_cfgs = ["default", "rom+ram+romov"] if tier == "quick" else cfgs
+    le_cfgs = ["default", "rom+ram+romov", "sym-rom-overlay-1", "sym-ram-overlay-1"] if tier == "quick" else cfgs
     le = [dict(config=c, size=s) for c in le_cfgs for s in (1, 2, 3)]
     le += [dict(config=c, size=2, api="word") for c in le_cfgs] + [dict(config=c, size=3, api="long") for c in le_cfgs]
     reps += common.run_units("contracts.membus:unit_le", le, budget=900)
